@@ -345,6 +345,66 @@ def run_type_errors(arg):
     return part.result()
 
 
+# ---- diagnostics of the type checker on the system section: processes, instantiations and their arguments ----------------------
+SYSTEM_ERRORS = [     # (id, template parameters, template-local declarations, system text)
+    ("free-parameter-unbounded", "int p", "", "system T;"),
+    ("free-parameter-unbounded-const", "const int p", "", "system T;"),
+    ("free-parameter-unbounded-among-processes", "const int p", "", "system U, T;"),
+    ("free-parameter-in-array-size", "const int[0,1] p", "int arr[p + 1];", "system T;"),
+    ("partial-instance-free-parameter-unbounded", "const int p", "", "R(const int k) = T(k);\nsystem R;"),
+    ("partial-instance-free-parameter-in-array-size", "const int[0,1] p", "int arr[p + 1];", "R(const int[0,1] k) = T(k);\nsystem R;"),
+    ("listed-after-bound-process", "const int p", "", "P = T(1);\nsystem P, T;"),
+    ("argument-double", "const int p", "", "P = T(1.5 + true);\nsystem P;"),
+    ("argument-channel-for-int", "const int p", "", "P = T(c);\nsystem P;"),
+    ("argument-not-an-lvalue", "int &p", "", "P = T(1);\nsystem P;"),
+    ("argument-with-side-effect", "const int p", "", "P = T(i++);\nsystem P;"),
+    ("argument-not-computable", "const int p", "", "P = T(i);\nsystem P;"),
+    ("second-argument-wrong", "const int p, const int q", "", "P = T(1,\n   c);\nsystem P;"),
+    ("argument-of-second-instance", "const int p", "", "P = T(1);\nP2 = T(c);\nsystem P, P2;"),
+    ("argument-through-partial-instance", "const int p, const int q", "", "R(const int k) = T(k, 1);\nP = R(c);\nsystem P;"),
+    ("system-declaration-type-error", "const int p", "", "int sv = 1.5 + true;\nP = T(1);\nsystem P;"),
+    ("progress-measure-not-integral", "const int p", "", "P = T(1);\nsystem P;\nprogress { c; }"),
+    ("own-parameter-range-not-computable", "const int p", "", "R(const int[0, i] k) = T(k);\nP = R(0);\nsystem P;"),
+]
+
+
+def run_system_errors(_):
+    part = engine.Part()
+    w = engine.worker("fast")
+    cases = []
+    for sid, params, ldecl, system in SYSTEM_ERRORS:
+        for lead in ("", "\n\n", "int sy1;\nint sy2; "):
+            t = X.template("T", params=params, decl=ldecl, locations=[X.location("id0", "L0")], init="id0")
+            u = X.template("U", locations=[X.location("id5", "M0")], init="id5")
+            cases.append((sid, lead, X.nta("int i; clock x; chan c;", [t, u], lead + system)))
+    res = X.run_docs(w, [c[2] for c in cases], want=["noinv"], batch=50)
+    for (sid, lead, doc), r in zip(cases, res):
+        part.count()
+        key = "system section `%s` (lead %r)" % (sid, lead)
+        rp = {"op": "xml", "buf": doc}
+        if engine.check_crash(part, PID, r, key, rp):
+            continue
+        if r.get("exc") is not None:
+            part.outcome("exception")
+            continue
+        part.nontrivial_case("system-error:%s:%r" % (sid, lead))
+        root = ET.fromstring(doc.encode())
+        diags = [("error", e) for e in r.get("errors", [])] + [("warning", e) for e in r.get("warnings", [])]
+        if not diags:
+            part.outcome("system-error:not-diagnosed")
+            continue
+        good = check_positions(root, diags, part, "system-error", key, rp, sid)
+        if len(good) != len(diags):
+            continue
+        other = [g for g in good if g[0] != "/nta/system"]
+        if other:
+            part.outcome("system-error:attributed-elsewhere")
+            part.violation("system-error-elsewhere:%s" % sid, "%s: diagnostic `%s` is attributed to %s" % (key, other[0][5], other[0][0]), rp)
+        else:
+            part.outcome("system-error:positions-ok")
+    return part.result()
+
+
 def main():
     t = engine.tier()
     variants = LAYOUTS_T      # both tiers: all seven layouts, both base models (seconds)
@@ -368,6 +428,7 @@ def main():
         rep.merge(res)
     for res in engine.pmap(run_type_errors, [(i, engine.ncpu()) for i in range(engine.ncpu())]):
         rep.merge(res)
+    rep.merge(run_system_errors(None))
     rep.assumptions = ["Python's ElementTree over the same bytes is the independent DOM; lines are the '\\n'-separated lines of the "
                        "element's decoded text, columns are 0-based half-open offsets",
                        "a fault that leaves the text valid (no error reported) is counted, not judged"]
